@@ -33,7 +33,7 @@ def profiles(kind, nz):
     """Return (z, (u, v, Kx, Ky, Kz)) with exactly nz nodes.
 
     kinds: "most_u" "most_s" (MOST unstable/stable, oblique wind), "mostm" (Kx # Ky),
-           "const" (height independent, for the analytic branch), "aniso" (hand-built, Kx # Ky # Kz).
+           "const" / "const_aniso" (height independent, isotropic / Kx # Ky # Kz with oblique wind: for the analytic branch), "aniso" (hand-built, Kx # Ky # Kz).
     """
     key = (kind, nz)
     if key in _PROFILE_CACHE:
@@ -47,6 +47,10 @@ def profiles(kind, nz):
         # the closure returns about 2n nodes; identities hold for any profile arrays, keep the first nz
         z = np.array(z[:nz], dtype=float)
         prof = tuple(np.array(p[:nz], dtype=float) for p in prof)
+    elif kind == "const_aniso":
+        z = 0.4 + 1.3 * np.arange(nz)
+        one = np.ones(nz)
+        prof = (2.1 * one, -1.3 * one, 1.7 * one, 0.6 * one, 0.9 * one)
     elif kind == "aniso":
         z = 0.05 * 1.9 ** np.arange(nz) + 0.3 * np.arange(nz)
         sp = 1.2 * np.log(z / 0.03)
